@@ -327,6 +327,11 @@ def runOpExt (f : List String) : Option String :=
       let L ← levelOf' l; let s ← ofHex h; let v ← v.toInt?; pure (opF3 L s name v)
   | ["F2", l, h, name, v] => do
       let L ← levelOf' l; let s ← ofHex h; let v ← v.toInt?; pure (opF2 L s name v)
+  -- G: the same after a full round of queries (queries change nothing in the model: `queries_are_pure`)
+  | ["G3", l, h, name, v] => do
+      let L ← levelOf' l; let s ← ofHex h; let v ← v.toInt?; pure (opF3 L s name v)
+  | ["G2", l, h, name, v] => do
+      let L ← levelOf' l; let s ← ofHex h; let v ← v.toInt?; pure (opF2 L s name v)
   | ["BIG", ver, l, hd, unit, n] => do
       let L ← levelOf' l; let hd ← ofHex hd; let u ← ofHex unit; let n ← n.toNat?; pure (opBig ver L hd u n)
   | ["NM", fn, v, tag] => do let v ← v.toInt?; opNM fn v tag
